@@ -306,13 +306,91 @@ pub fn replay_named_wide(ctx: &mut Ctx, case: &Value, oracle: Oracle, prop_tag: 
 /// first, structure otherwise). Any disagreement — and any panic in a row — is re-judged case by
 /// case through `check_api`, which produces the violation record. Operands are compared with a
 /// deep copy taken before the row.
-/// the seven binary connectives of the API (`a <= b` is implies with swapped operands, which a
-/// complete pair sweep of implies already contains); VCHECK_PAIRS4_OPS=and,xor narrows it
+/// One representative (the numerically smallest truth table) of every class of four-variable
+/// functions under permutation of the inputs, negation of inputs and negation of the output
+/// (222 classes): every "shape" a four-variable function can have.
+pub fn npn_reps4() -> Vec<u64> {
+    let perms = crate::enumerate::permutations(4);
+    let mut seen = vec![false; 65536];
+    let mut reps = vec![];
+    for f in 0..65536u64 {
+        if seen[f as usize] {
+            continue;
+        }
+        reps.push(f);
+        for p in &perms {
+            for neg in 0..16usize {
+                let mut g = 0u64;
+                for a in 0..16usize {
+                    let mut b = 0usize;
+                    for (i, &pi) in p.iter().enumerate() {
+                        if (a >> i) & 1 == 1 {
+                            b |= 1 << pi;
+                        }
+                    }
+                    b ^= neg;
+                    if (f >> b) & 1 == 1 {
+                        g |= 1 << a;
+                    }
+                }
+                seen[g as usize] = true;
+                seen[(!g & 0xffff) as usize] = true;
+            }
+        }
+    }
+    reps
+}
+
+/// `reps x F_4`: every class representative against every one of the 65 536 functions, in
+/// both operand positions, under the given connectives (same lean loop as `pairs4_sweep`)
+pub fn reps4_sweep(ctx: &mut Ctx, oracle: Oracle, prop_tag: &str, ops: &[Bin]) {
+    let syms = [0usize, 3, 4, 9];
+    let sp = match Space::<usize>::by_interning(&syms) {
+        Ok(s) => s,
+        Err(e) => {
+            ctx.violation(format!("{prop_tag} api syms={syms:?}: building operands"), e, json!({"part": "api", "syms": syms, "space": "interned", "op": "not", "operands": [0]}));
+            return;
+        }
+    };
+    let reps = npn_reps4();
+    ctx.global("npn_classes_k4", reps.len() as u64);
+    let canon: Vec<Rc<BDD<usize>>> = (0..65536u64).map(|t| sp.canon(t)).collect();
+    let hs: Vec<Rc<BDD<usize>>> = (0..65536u64).map(|t| sp.get(t)).collect();
+    for g in 0..65536u64 {
+        if !ctx.mine(g) {
+            continue;
+        }
+        for &r in &reps {
+            for &b in ops {
+                for (x, y) in [(r, g), (g, r)] {
+                    let op = ApiOp::Bin(b);
+                    let want = bin_tt(b, x, y, sp.full);
+                    let ok = guarded(|| {
+                        let res = apply_api(&sp, op, &[hs[x as usize].clone(), hs[y as usize].clone()]);
+                        (!oracle.semantic || sp.tt(&res) == Ok(want)) && (!oracle.canonical || (*canon[want as usize] == *res && (want == sp.full) == res.is_true() && (want == 0) == res.is_false()))
+                    });
+                    ctx.count("class_representative_pairs_k4", 1);
+                    ctx.count("distinct_by_construction", 1);
+                    if ok != Ok(true) {
+                        check_api(ctx, &sp, "interned", op, &[x, y], oracle, prop_tag);
+                    }
+                }
+            }
+        }
+    }
+}
+
+/// connectives of the complete pair sweep: by default `and` and `or`; VCHECK_PAIRS4_OPS=all
+/// selects the seven binary connectives of the API (`a <= b` is implies with swapped
+/// operands), VCHECK_PAIRS4_OPS=and,xor any subset
 pub fn pairs4_ops() -> Vec<Bin> {
     let all: Vec<Bin> = ALL_BINS.iter().copied().filter(|b| *b != Bin::ImpliesInv).collect();
     match std::env::var("VCHECK_PAIRS4_OPS") {
+        Ok(v) if v == "all" => all,
         Ok(v) => all.into_iter().filter(|b| v.split(',').any(|x| x == format!("{b:?}").to_lowercase())).collect(),
-        Err(_) => all,
+        // default: the two connectives that have a recursion of their own on the current tree
+        // (every other one is a composition of these and `not`); all seven take ~80 min
+        Err(_) => vec![Bin::And, Bin::Or],
     }
 }
 
